@@ -23,31 +23,31 @@ PENDING = "check under construction (deterministic simulation engine planned in 
 CHECKS = {
 "C08": dict(
   engine="simio",
-  technique="deterministic simulation of the byte stream with fault injection: seeded chunk schedules, dirty receivers, multi-object streams, enumeration of every truncation and sink-failure offset, header corruption; minimised choice-trace replay",
+  technique="deterministic simulation of the byte stream with fault injection: seeded chunk schedules, dirty and shrunk receivers, bystander objects, multi-object streams, enumeration of every truncation and sink-failure offset, header corruption; minimised choice-trace replay",
   category="fault_enumeration",
   text="Every run is one seed-determined execution of the real serialization code against a simulated transport: all writing entry points must agree byte for byte and deliver BinarySize bytes; decoding under any drawn fragmentation into fresh and previously used receivers must reproduce the object (own Equal + re-encoding) and consume exactly the bytes written, also back-to-back through one caller-owned reader; about one run in twelve enumerates every truncation offset and every sink-failure offset of an encoding (the crash-point dimension), the others inject drawn truncations, sink failures and header-field corruptions. A clean batch is evidence over the sampled schedules, not a proof; the offset sweeps are exhaustive for the sampled encodings.",
   design_ref="DESIGN.md section 4",
-  note="Trusted: Go runtime/bufio, the harness' simulated reader/sink, the object generators (random residues, not cryptographically meaningful keys). Corruption positions are found format-independently (small little-endian words, 0/1 bytes); for encodings containing map keys the 'accepted but shorter' sub-check is skipped (a collided key is not a length/flag field). Allocation bound 1 GiB. bootstrapping.EvaluationKeys and bootstrapping.Parameters are not in the catalog yet.",
+  note="Trusted: Go runtime/bufio, the harness' simulated reader/sink, the object generators (random residues, not cryptographically meaningful keys). Corruption positions are found format-independently (small little-endian words, 0/1 bytes); for encodings containing map keys the 'accepted but shorter' sub-check is skipped (a collided key is not a length/flag field). Allocation bound 1 GiB. The catalog (about 50 types) includes JSON entry points, parameter literals, the bootstrapping key bundle and vectors longer than the decoder's growth step.",
 ),
 "C09": dict(
   engine="histsim",
-  technique="deterministic simulation of call histories on long-lived evaluators/encoders with seeded aliasing patterns, dirty outputs and scratch-memory poisoning (fault injection into memory that by contract carries no information); twin execution on a pristine object with copied inputs and a clean natural-shape output; minimised choice-trace replay",
+  technique="deterministic simulation of call histories on long-lived evaluators / encoders / key generators / rings with seeded aliasing patterns, dirty outputs and scratch-memory poisoning (fault injection into memory that by contract carries no information); twin execution on a pristine object with copied inputs and a clean natural-shape output; minimised choice-trace replay",
   category="exploration",
   text="Each run is a seed-determined history of 6-30 operations of the integer (standard and scale-invariant) or approximate evaluator on a pool of ciphertexts whose members are earlier results. Every step draws operand kinds (ciphertext, plaintext, vector, every scalar Go type incl. *big.Int/*big.Float), an aliasing pattern (out==op0, out==op1, op0==op1, all equal, or a dirty output of larger degree/level with arbitrary content and metadata) and whether all scratch memory reachable from the evaluator is overwritten with garbage first. The same call is executed on a freshly built twin with deep copies of the inputs and a zeroed distinct output of the natural shape. Oracles: every non-output argument is bit-identical after the call; the status (ok/error/panic) agrees (an aliased or mis-shaped output may be refused with an error); accepted calls produce the same ciphertext (level, metadata, polynomials compared canonically, trailing zero components ignored); evaluation keys unchanged; the embedded encoder after the history and poisoning agrees with a new one; encrypt/decrypt leave inputs intact and ignore the previous content and level of their output. Input-intactness of protocol methods is checked inside the C14-C16 workloads.",
   design_ref="DESIGN.md section 6",
-  note="Trusted: the harness' canonical comparison and deep-copy (CopyNew) of inputs. Scratch is found by field name (buff*/buf*/tmp*/pool*) and type; poisoned byte counts are reported. Operations documented as in place or as no-op (DropLevel, MatchScalesAndLevel, Rescale in scale-invariant mode) are modelled as documented. rgsw, lintrans and polynomial evaluators are not in the catalog yet.",
+  note="Trusted: the harness' canonical comparison and deep-copy (CopyNew) of inputs. Scratch is found by field name (buff*/buf*/tmp*/pool*) and type; poisoned byte counts are reported. Operations documented as in place or as no-op (DropLevel, MatchScalesAndLevel, Rescale in scale-invariant mode) are modelled as documented. Besides the bgv/bfv/ckks evaluators the catalog holds the scheme-agnostic rlwe evaluator (with and without the NTT flag), rgsw external product, linear transformations, polynomial evaluation (single, vectors, sparse Chebyshev), hoisted rotations, 59 ring.Ring operations, key-generator calls into reused receivers and the plaintext-ring entry points of the integer encoder; values of the pool that are not arguments of a call must stay unchanged (bystanders).",
 ),
 "C10": dict(
   engine="simsched",
-  technique="deterministic simulation of caller goroutines: real goroutines released one library operation at a time by a seeded scheduler whose hand-offs are hidden from the race runtime, so ThreadSanitizer's vector clocks report any conflicting access of two tasks in every schedule; sequential reference results; copy-vs-original differential and deep-copy independence in a second, race-free binary; minimised choice-trace replay",
+  technique="deterministic simulation of caller goroutines: real goroutines released one library operation at a time by a seeded scheduler whose hand-offs are hidden from the race runtime, so ThreadSanitizer's vector clocks report any conflicting access of two tasks in every schedule; sequential reference results; in a second, race-free binary: copy-vs-original differential, field-by-field configuration comparison of every copy with its source, a state-footprint oracle (a step on one concurrently usable copy must not change any memory another one can reach - needed because the race runtime silently drops conflicts whose earlier access has left its bounded history), deep-copy completeness / independence / internal aliasing structure; minimised choice-trace replay",
   category="exploration",
   text="Two phases. Plain binary: per run a scenario of the copy catalog (integer/approximate evaluators, encoders incl. non-default precision and small plaintext ring, encryptor/decryptor, rlwe evaluator with Galois keys added after construction, ring level views + basis extenders, key-generation / key-switch / refresh protocols, rgsw) builds a fully configured original, derives copies through drawn chains of ShallowCopy / WithKey(same) / copy-of-copy, runs a drawn program on all of them in a drawn interleaving: same results and status on the copy as on the original, randomised operations valid and different, a pristine original afterwards behaves like the used one; one run in four checks CopyNew of drawn serializable objects (complete, no shared backing arrays, scrambling the copy leaves the original intact). Race binary: 2-8 tasks, each owning its own copy (or the original) and sharing keys, parameters and inputs, run under the seeded scheduler; a data race is reported by the race runtime whatever the schedule, and after the join every deterministic result must equal the sequential reference, randomised results must be valid and pairwise different.",
   design_ref="DESIGN.md section 5",
-  note="Trusted: Go race runtime; the argument that for synchronisation-free library code a vector-clock conflict is a race in every interleaving. Bootstrapping evaluator copies, lintrans/polynomial/dft/mod1 evaluators and blind-rotation evaluators are not in the catalog yet. Sampler WithPRNG/AtLevel semantics are decided under C17.",
+  note="Trusted: Go race runtime; the argument that for synchronisation-free library code a vector-clock conflict is a race in every interleaving. The bootstrapping evaluator scenario (seconds per run) is drawn in the thorough tier only; blind-rotation evaluators offer no copy constructor. Sampler WithPRNG/AtLevel semantics are decided under C17.",
 ),
 "C14": dict(
   engine="simnet",
-  technique="deterministic discrete-event network simulation of N parties and a tree of aggregators running several collective key-generation instances concurrently: seeded delay/reordering, duplication, in-transit serialization, aliasing forms of aggregation, mis-routed shares; ideal-secret oracles computed with the simulator's knowledge of all secrets; minimised choice-trace replay",
+  technique="deterministic discrete-event network simulation of N parties and a tree of aggregators running several collective key-generation instances concurrently: seeded delay/reordering, duplication, in-transit serialization, aliasing forms of aggregation, recycled share receivers, mis-routed shares; standard and conjugate-invariant rings; ideal-secret oracles computed with the simulator's knowledge of all secrets; minimised choice-trace replay",
   category="exploration",
   text="Each run simulates 1..8 parties (each with its own CRS reader and protocol objects) and 1..3 aggregators executing 2..5 concurrent instances of the public-key, relinearisation-key (both rounds), Galois-key and generic evaluation-key protocols with drawn (LevelQ, LevelP, BaseTwoDecomposition) over moduli of unequal size. Oracles: reference polynomials bit-identical at every node; the aggregate that emerged from the network equals the index-order aggregate of the recorded shares; every gadget row of the final key satisfies b + a*s_out = P*w*s_in + e with |e| below the hard bound implied by the declared error distribution (N*B; protocol bound for the relinearisation key); the key works in the single-party evaluator (re-encrypt / rotate / relinearise, residual below a hard key-switch bound, compared with a single-party key of the ideal secret); mis-routed shares are rejected with an error and leave the aggregate unaffected; every instance terminates once all messages are delivered.",
   design_ref="DESIGN.md section 7.1",
@@ -67,7 +67,7 @@ CHECKS = {
   category="exploration",
   text="Each run draws a scheme (integer with drawn plaintext modulus, or approximate with drawn scale / slot count / ring type), a deployment of 1..8 parties (one third of the runs: a t-out-of-N deployment whose survivors use additive shares from the Combiner), an input ciphertext at a drawn level and scale after drawn homomorphic operations, a noise-flooding sigma, and 1-3 protocol instances among key switch to a shared key, collective decryption, public-key switch, encryption-to-shares and back, refresh and masked transform (linear slot maps, decode/encode flags). Shares travel over the simulated transport into a 1-2 level aggregator tree. Oracles: aggregate equals the index-order aggregate; the target key decrypts to the original plaintext within N times the hard share bound; additive shares sum to the plaintext (exactly mod t when a hard noise budget is left; within N*bound per coefficient for the approximate scheme); re-encryption / refresh / transform outputs decode to the message resp. f(message) at the requested level and scale with the documented metadata; each share's error, recovered with the party's secrets, lies within the declared bound and has empirical sigma >= (1-8/sqrt(2n)) of the requested smudging sigma; inputs are untouched.",
   design_ref="DESIGN.md section 7.3",
-  note="Trusted: lattigo encoders/decryptor/ring arithmetic as substrate; plaintext expectations are computed independently (Go integers, big floats). Exactness (integer scheme) only when 4*T*(measured input noise + N*share bound) < Q; approximate scheme compared with a hard slot tolerance n*(coefficient bound)/scale. Transform functions are linear. Parameter switching (different input/output parameters) is not drawn yet.",
+  note="Trusted: lattigo encoders/decryptor/ring arithmetic as substrate; plaintext expectations are computed independently (Go integers, big floats). Exactness (integer scheme) only when 4*T*(measured input noise + N*share bound) < Q; approximate scheme compared with a hard slot tolerance n*(coefficient bound)/scale. Transform functions are linear. Parameter switching (another modulus chain, default scale and - approximate scheme - ring of twice the degree) is drawn for refresh and transform; key-switching inputs are in or outside the NTT domain; receivers are the input, new, or carry foreign metadata.",
 ),
 "C17": dict(
   engine="histsim",
